@@ -248,6 +248,9 @@ def check(ctx, rep):
              "entry by bytes that are not UTF-8 still equals that entry's selector, so hiding and merging work for it", floor=1)
     rep.rule("R07p", "= R10f: the selector filter lets ordinary names through (one character long, with dots or blanks inside, starting with a dot, "
              "not UTF-8) - a name it refuses drops out of every listing and cannot be fetched", floor=1)
+    rep.rule("R07r", "a dot-file the ignore pattern matches is left out unread: it is parsed as a link file only when the pattern lets its name "
+             "through (evaluated for the shipped patterns and the dot-file-excluding pattern the configuration file suggests)", floor=1)
+    ignored_linkfile_obligations(ctx, rep, "R07r")
     rep.rule("R07q", "nothing on the listing path iterates a set (for, comprehension, list(), extend(), join()): set order follows randomised string "
              "hashes, so it is not a function of names and metadata; sorted(), len(), membership and the like are fine", floor=1)
     hash_order_obligations(ctx, rep, "R07q")
@@ -620,6 +623,66 @@ def ignore_filter_obligations(ctx, rep, rule, dirbase):
         enough = n >= len(names)
         rep.add(rule, f"{rel}: {f.qualname} agrees with the ignore pattern [{n} names evaluated]", not problems and enough, ctx.where(f),
                 "; ".join(problems[:3]) if problems else ("" if enough else "the walker could not follow the filter"), key=f"{rule}|{rel}", nontrivial=enough)
+
+
+
+def ignored_linkfile_obligations(ctx, rep, rule):
+    """A name the ignore pattern matches is left out *unread*: the UMN filter may parse a dot-file as a link file only when the
+    pattern lets the name through (an ignored file that is parsed can hide entries or add foreign ones)."""
+    import re as _re
+
+    from ..paths import Const as _C, PathLimit, Walker as _W
+
+    prog = ctx.prog
+    umn = ctx.cls("handlers.UMN.UMNDirHandler")
+    f = prog.resolve_method(umn, "prep_initfiles_canaddfile") if umn else None
+    if f is None or len(f.params) < 4 or f.cls is None or f.cls.name == "DirHandler":
+        rep.ok(rule, "the link-file handler has no filter of its own", "pygopherd/handlers/UMN.py", "", key=f"{rule}|none", nontrivial=False)
+        return
+    patterns = {}
+    for rel, raw in ctx.config.get("handlers.dir.DirHandler", "ignorepatt").items():
+        patterns.setdefault(raw, rel)
+    patterns.setdefault(r"~$|/\.|/gophermap$", "(pattern suggested in the configuration file: dot-files excluded)")
+    names = [".Links", ".names", ".message", ".cache.pygopherd.dir", ".forward", ".hidden~", "plain.txt", ".cap"]
+    for patt, rel in sorted(patterns.items()):
+        try:
+            rx = _re.compile(patt)
+        except _re.error:
+            continue
+        problems, n = [], 0
+        for name in names:
+            cand = "/sub/" + name
+            facts = {"self.selector": _C("/sub"), "self.selectorbase": _C("/sub")}
+            read = []
+
+            def cv(call, target, st, _read=read):
+                fn = call.func
+                if isinstance(fn, ast.Attribute) and fn.attr == "processLinkFile":
+                    _read.append(1)
+                    return _C([])
+                if isinstance(fn, ast.Attribute) and fn.attr == "isdir" and "vfs" in norm(fn.value):
+                    return _C(False)
+                if isinstance(fn, ast.Attribute) and fn.attr in ("extend", "append", "add") and "link" in norm(fn.value).lower():
+                    return _C(None)
+                return None
+
+            w = _W(prog, ctx.resolver, call_value=cv, exact_loops=True, unroll=4, assumptions=dict(facts), max_paths=4000,
+                   inline=lambda fn, t, d: d < 3 and (t.bound_cls is not None or (fn.cls is None and fn.module.name.startswith("pygopherd.handlers")))
+                   and fn.name != "processLinkFile")
+            try:
+                paths = w.run(f, umn, env={f.params[1]: _C(patt), f.params[2]: _C(cand), f.params[3]: _C(name)}, facts=dict(facts))
+            except PathLimit:
+                continue
+            if len(paths) != 1 or paths[0].kind != "return":
+                continue
+            n += 1
+            ignored = rx.search(cand) is not None
+            if ignored and read:
+                problems.append(f"{name!r} is matched by the ignore pattern {patt!r} and yet parsed as a link file: its blocks can hide entries of the "
+                                "directory or add entries that are not in it")
+        enough = n >= len(names) // 2
+        rep.add(rule, f"{rel}: names the pattern ignores are not read as link files [{n} names evaluated]", not problems and enough, ctx.where(f),
+                "; ".join(problems[:2]) if problems else ("" if enough else "the walker could not follow the filter"), key=f"{rule}|{rel}", nontrivial=enough)
 
 
 # ---------------------------------------------------------------------------------------------- R07o
